@@ -15,7 +15,7 @@ MANIFEST = dict(
           "the extracted model and the real code on generated trees (depth 0..4, empty directories, directories named *.god, "
           "extensions god/GOD/God/txt/none/dot-file/trailing) x histories; an independent oracle re-states the property on the "
           "implementation's own output using only the generated tree."),
-    note=("Trusted: Coq kernel, extraction (ExtrOcamlBasic), harness, the host file system. Assumes ASCII names over [A-Za-z0-9_.], "
+    note=("Trusted: Coq kernel, extraction (ExtrOcamlBasic), harness, the host file system. Names over [A-Za-z0-9_.] plus a space, %, #, + and a CJK letter (characters a file URI percent-encodes), "
           "no symlinks, readable directories, a case-sensitive file system, unique upper-cased stems among the *.god files under "
           "the root, requests only for paths that exist (a missing file panics in get_key_for_path: finding D2, property C01), a "
           "workspace root that is absent or a directory."),
@@ -25,7 +25,7 @@ MANIFEST = dict(
 )
 
 ASSUMPTIONS = [
-    "file and directory names are ASCII over [A-Za-z0-9_.], none is '.' or '..'; str::to_uppercase on stems is modelled as ASCII upper-casing; Url::from_file_path/to_file_path are mutually inverse on such paths (nothing is percent-encoded)",
+    "file and directory names are over [A-Za-z0-9_.] plus a space, %, #, + and one caseless non-ASCII letter (written ~1..~5 in the model's names and decoded by the harness), none is '.' or '..'; str::to_uppercase on stems is modelled as ASCII upper-casing (no cased non-ASCII letters are generated); the map is keyed by file-system paths, so Url::from_file_path/to_file_path must be mutually inverse also on names a URI percent-encodes - checked by the correspondence, not assumed",
     "no symbolic links and a canonical scratch root, so std::fs::canonicalize is the identity on existing paths; all directories are readable; the file system is case-sensitive and does not change during one index walk",
     "the *.god files under the workspace root have pairwise distinct stems ignoring case (two files with the same stem overwrite each other in class_uri_map, in read_dir order)",
     "requests (change/parse/save/close/get_document_info) are made for existing paths only: get_key_for_path panics on a missing file (finding D2, handled under property C01); the workspace root is absent, missing, or a directory (read_dir on a regular file panics while the map lock is held)",
@@ -97,9 +97,11 @@ def parse_case(case):
 # --------------------------------------------------------------------------------------------
 # generator
 # --------------------------------------------------------------------------------------------
-STEM_WORDS = ["aFoo", "aBar", "Main", "x", "Qux_1", "aOcsCard", "zz", "Node", "tEST", "a.b", "lib.core", "K9", "_u", "wam"]
+# ~1..~5: a space, %, #, a CJK letter, + (decoded by the harness; see eng_index.rs)
+STEM_WORDS = ["aFoo", "aBar", "Main", "x", "Qux_1", "aOcsCard", "zz", "Node", "tEST", "a.b", "lib.core", "K9", "_u", "wam",
+              "a~1b", "~2x", "w~3", "~4~4", "p~5q", "a~220b"]
 OTHER_EXT = [".GOD", ".God", ".txt", "", ".god.bak", ".", "god", ".gold", ".go", ".god~"]
-DIR_WORDS = ["d", "Sub", "pkg", "WAM", "x.god", "deep", "e_1", "Bundle"]
+DIR_WORDS = ["d", "Sub", "pkg", "WAM", "x.god", "deep", "e_1", "Bundle", "My~1Bundle", "B~4ndel", "c~3", "q~2"]
 
 
 class Gen:
